@@ -1288,6 +1288,28 @@ impl<'a> Ctx<'a> {
                         }
                     }
                 }
+                // A read round that ran out of time exactly when the limit ran out - the pipes were
+                // still open: somebody may still write - is the limit being reached, whatever scrut
+                // learns about the shell afterwards (a shell that has ended while a job it started
+                // keeps the test case's output open has not completed the test case). Only a round
+                // that ends BEFORE the limit is "reading in short rounds".
+                if res == "ok" && !script && p.faults.is_empty() && !tj.detached {
+                    if let (Some(ce), Some(a)) = (p.comm_end.as_ref(), a_min) {
+                        let reported = d.tests.iter().find(|x| x.nonce == tj.nonce).map(|x| x.report.clone());
+                        let at_limit = ce.2 == "timed_out" && ce.0 + 2 * MS >= a && ce.0 >= cb_t;
+                        if at_limit && matches!(reported, Some(Report::Success)) {
+                            out.push(v(
+                                "C14",
+                                "timeout-not-reported",
+                                Some(&tj.nonce),
+                                format!(
+                                    "test {}: its limit ran out at t={}ns while scrut was still reading its output (t0={}, per-test={:?}, document={:?}), yet it is reported as succeeded",
+                                    tj.nonce, ce.0, t0, t_i, dlimit
+                                ),
+                            ));
+                        }
+                    }
+                }
                 if res == "ok" || res == "timed_out" {
                     // (a `wait` is not interruptible: when the limit had already expired by the time
                     // scrut started to communicate, stopping at once is all that can be asked)
